@@ -45,7 +45,12 @@ RULE = ('read: fixed table of every shape the property names (length prefixes 10
         '2^1024-1, 2^1024, 2^1024+1, 2^1025, 10^309, 10^400, 2^2048, 10^4298, 10^4299, 10^4300-1, 10^4300 and their negatives as '
         'length, files[0|1].length, piece length (the number, 16384 x it, the multiples of 16384 around it), creation date and '
         'private of single- and multi-file torrents, each as it is and fitted (piece length chosen so that the torrent validates '
-        'and every later check and export is reached), 19 pairs of file lengths whose sum crosses a border + short runs of 26 byte '
+        'and every later check and export is reached), 19 pairs of file lengths whose sum crosses a border + numbers stored as text: '
+        '162 numeric-looking byte strings (digit runs of 1, 2, 10, 19, 20, 39, 308..310, 4299..4301, 5000, 10^5 digits as 9.., 10.., '
+        '0.., 0..1; signs, white space, underscores, radix prefixes, exponent / float / inf / nan, Unicode decimal digits, other '
+        'Unicode digits and numerics, look-alike signs, long mixed forms around the 4300-digit limit; not-UTF-8 variants) as creation '
+        'date, private, length, piece length, files[i].length, pieces, encoding and as the port of the URL in announce, announce-list, '
+        'url-list, httpseeds + short runs of 26 byte '
         'units at start / middle / end of the text of 19 fields + exhaustive strings over {d,l,e,i,1,0,:,-,a} up to length 4 '
         '(6 thorough) + truncation of seed torrents at every offset + seeded fuzz (bit flips, structure mutations, wrong '
         'types, hostile value at a random place, spliced length prefixes, deep values, slice delete/dup/reverse, random bytes), '
@@ -55,7 +60,11 @@ RULE = ('read: fixed table of every shape the property names (length prefixes 10
         '[thorough: ..20000] `&`-separated fields in 24 shapes: blank, without "=", repeated / distinct tr ws dn kt xl xt x_ unknown, '
         '`;`, mixed; single values of 4300..100000 characters; 40 percent-escapes valid/invalid/non-UTF-8/encoded separators in '
         '24 positions incl. parameter names) + runs (1, 40) of 63 units (every str.isspace() class, BOM / zero-width / LRM / RLM, '
-        'escapes, separators, digits, hash letters, URL punctuation) at 18 positions + grammar (2 % with ~100..2500 fields) + '
+        'escapes, separators, digits, hash letters, URL punctuation) at 18 positions + exact topics of 24 kinds (btih hex/base32, bare '
+        'hashes, urn:btmh: multihash and its malformed forms, sha1, ed2k, tree:tiger, md5, aich, kzhash, bitprint, crc32, uuid) in 14 '
+        'spellings of the prefix (case, percent-encoding, padding) alone, in all 100 ordered pairs of 10 core topics, 64 triples, 3..100 '
+        'v2 topics with/without a v1 topic, xt.N, x_xt, topics in other parameters, 36 other parameters (so, x.pe, select-only, mt, '
+        'fl, ...) + the numeric-looking strings as xl and as URL port + grammar (2 % with ~100..2500 fields) + '
         'mutations + random. cost: 25 size families + repeated-unit families (unit x position x entry point: 63 units x 18 magnet '
         'positions, 26 byte units x 3 positions x 19 torrent fields, 27 shapes of the encoding: digit runs in prefixes and '
         'integers, nesting, long keys, many small items), sizes n, 4n, 16n, process CPU time in a forked child under RLIMIT_CPU. '
@@ -718,6 +727,9 @@ def evaluate_magnet(ctx, drv, cases):
         if not m['stripAgree'] or m['stripSteps'] > len(c['uri']) + 2:
             ctx.machinery_error('the Lean model of str.strip() disagrees with CPython on this string, or its step count exceeds '
                                 'len+2 (Model/PyStrip.lean is wrong / contradicts C08_strip_steps)', case)
+        if not m['intAgree']:
+            ctx.machinery_error('the Lean model of int() on ASCII strings disagrees with CPython on an xl value of this URI '
+                                '(Model/PyInt.lean is wrong)', case)
         if not m['qsAgree']:
             ctx.machinery_error('the Lean model of urllib.parse.parse_qs disagrees with the standard library on this query '
                                 '(Model/QueryString.lean is wrong)', case)
@@ -914,12 +926,17 @@ def cost_checks(ctx):
             if b['cpu'] >= 0.4 and a['cpu'] > 0 and b['len'] >= 3 * a['len']:
                 ratio = b['cpu'] / max(a['cpu'], 1e-3)
                 if ratio > 1.6 * (b['len'] / a['len']):
-                    # measurement noise (fork, page faults, load): repeat both points, keep the minima
+                    # repeat both points twice and compare the *medians*: load inflates a measurement, and a collection of the
+                    # garbage collector that happens to fall into one run and not into another makes the same input cost 0.03 s
+                    # or 0.12 s (read/deep, seen under load) — minima would pair a lucky small point with an ordinary large one
+                    ma, mb = [a['cpu']], [b['cpu']]
                     for _ in range(2):
                         again = _pmap(_measure_chunk, [[(fam, a['n'], True)], [(fam, b['n'], True)]], 400)
                         if again[0] and again[1] and not again[0][0].get('timeout') and not again[1][0].get('timeout'):
-                            a = dict(a, cpu=min(a['cpu'], again[0][0]['cpu']))
-                            b = dict(b, cpu=min(b['cpu'], again[1][0]['cpu']))
+                            ma.append(again[0][0]['cpu'])
+                            mb.append(again[1][0]['cpu'])
+                    a = dict(a, cpu=sorted(ma)[len(ma) // 2])
+                    b = dict(b, cpu=sorted(mb)[len(mb) // 2])
                     ratio = b['cpu'] / max(a['cpu'], 1e-3)
                 row.setdefault('ratios', []).append(round(ratio, 2))
                 if ratio > 1.6 * (b['len'] / a['len']) and b['cpu'] >= 0.4:
@@ -946,12 +963,14 @@ UNIT_SLACK = 2.0             # the same for the repeated-unit families: 4x the i
 
 def unit_family_names(thorough):
     # quick: every white-space class at every position, every other unit at a third of the positions (in rotation)
+    ws_quick = ('sp', 'tab', 'nl', 'cr', 'vt', 'nel', 'nbsp', 'emsp', 'ideo', 'bom', 'zwsp', 'ws-mix')
     names = ['unit/magnet/%s/%s' % (pos, u) for pi, pos in enumerate(ugen.MAGNET_POSITIONS) for ui, u in enumerate(ugen.UNITS)
-             if thorough or u in ugen.WS_UNITS or (pi + ui) % 3 == 0]
-    for field in ugen.READ_FIELDS:
+             if thorough or u in ws_quick or (pi + ui) % 3 == 0]
+    for fi, field in enumerate(ugen.READ_FIELDS):
         for pos in ugen.READ_POSITIONS:
-            for u in ugen.BUNITS:
-                if thorough or pos == 'mid' or u in ('sp', 'auml', 'slash', 'zero', 'xff', 'f'):
+            for ui, u in enumerate(ugen.BUNITS):
+                if thorough or (pos == 'mid' and (u in ('sp', 'tab', 'nl', 'nbsp', 'auml', 'a-dot', 'sp-a') or (fi + ui) % 2 == 0)) \
+                        or (pos != 'mid' and u in ('sp', 'auml', 'slash', 'zero', 'xff', 'f') and (fi + ui) % 2 == 0):
                     names.append('unit/read/%s/%s/%s' % (field, pos, u))
     names += ['unit/read-struct/' + k for k in ugen.READ_STRUCT]
     return names
@@ -1026,10 +1045,12 @@ def _unit_family_in_child(torf, w, fam, sizes):
         if t > TIME_C * ln + TIME_D:
             flag = 'absolute'
         elif prev and t >= SLOW_FLOOR and t / max(prev['cpu'], 1e-4) > UNIT_SLACK * (ln / prev['len']):
-            # re-measure before alarming: noise only ever adds CPU time, so the minima are the better estimates
-            pt = min([prev['cpu']] + [_unit_timed(torf, prev['data'])[0] for _ in range(2)])
+            # re-measure before alarming and compare medians (load inflates a run, a garbage collection may or may not fall
+            # into it: minima would pair a lucky small point with an ordinary large one)
+            pt = sorted([prev['cpu']] + [_unit_timed(torf, prev['data'])[0] for _ in range(2)])[1]
             if t < 3.0 or t / max(pt, 1e-4) < 2.5 * (ln / prev['len']):
-                t = min(t, _unit_timed(torf, data)[0])
+                ts = [t] + [_unit_timed(torf, data)[0] for _ in range(2 if t < 1.0 else 1)]
+                t = sorted(ts)[(len(ts) - 1) // 2]
             if t >= SLOW_FLOOR and t / max(pt, 1e-4) > UNIT_SLACK * (ln / prev['len']):
                 flag = 'superlinear'
             prev['cpu'] = pt
@@ -1168,7 +1189,7 @@ def unit_cost_checks(ctx):
     ctx.notes['unit_families'] = {'families': len(names), 'measured': len(results), 'sizes_magnet': msizes, 'sizes_read': rsizes,
                                   'worst_cpu_per_byte': worst_rate, 'worst_growth_over_input_growth(cpu>=0.1s)': round(worst_ratio, 2), 'worst_growth_family': worst_fam,
                                   'rule': f'cpu <= {TIME_C}*len+{TIME_D}; cpu(4n)/cpu(n) <= {UNIT_SLACK}*4 once cpu(4n) >= {SLOW_FLOOR} s '
-                                          f'(minima after re-measuring); killed after {UNIT_CPU_CAP} s CPU',
+                                          f'(medians after re-measuring); killed after {UNIT_CPU_CAP} s CPU',
                                   'slow_or_flagged': table}
 
 
@@ -1327,9 +1348,17 @@ def build_read_cases(ctx):
     for c in ugen.number_ladder():
         cases.append(dict(c, validate=True, how='bytes'))
         k = r.random()
-        if ctx.thorough or k < 0.35:
+        if ctx.thorough or k < 0.2:
             cases.append(dict(c, validate=False, how='bytes'))
         if k > (0.5 if ctx.thorough else 0.9):
+            cases.append(dict(c, validate=r.random() < 0.7, how=r.choice(['file', 'stream'])))
+    # numbers stored as text: numeric-looking strings in every numeric field and as the port of every URL field
+    for c in ugen.numeric_string_cases(full_product=ctx.thorough):
+        cases.append(dict(c, validate=True, how='bytes'))
+        k = r.random()
+        if ctx.thorough or k < 0.25:
+            cases.append(dict(c, validate=False, how='bytes'))
+        if k > (0.5 if ctx.thorough else 0.92):
             cases.append(dict(c, validate=r.random() < 0.7, how=r.choice(['file', 'stream'])))
     # short runs of every byte unit at every position of every text field
     pad = ugen.read_padding()
@@ -1363,6 +1392,8 @@ def build_magnet_cases(ctx):
     cases += ugen.magnet_fixed()
     cases += ugen.magnet_sizes(thorough=ctx.thorough)
     cases += ugen.magnet_padding()
+    cases += ugen.magnet_topics()
+    cases += ugen.magnet_numeric()
     cases += ugen.magnet_random(r, ctx.n(8000, 300000))
     return cases
 
@@ -1386,8 +1417,14 @@ def run(ctx, drv):
         'every judged case runs in a forked child whose RLIMIT_CPU is moved forward per case (4 x the claimed bound, 10..60 s): '
         'an input on which the code hangs is reported as a violation of the time bound after that many CPU seconds',
         'repeated-unit families: bound cpu <= c*len+d as for every call; growth rule cpu(4n) <= 8*cpu(n) once cpu(4n) >= 0.4 s, '
-        'minima after re-measuring (quadratic = 16x); CPU time, not wall time, so machine load does not enter except through '
+        'medians after re-measuring (quadratic = 16x); CPU time, not wall time, so machine load does not enter except through '
         'SMT / cache contention',
+        'int() on ASCII strings is modelled in Lean (Model/PyInt.lean: C white space, sign, digits with single underscores, the '
+        '4300-digit limit) and compared with CPython on every xl value; for strings with non-ASCII characters (Unicode digits and '
+        'spaces) int() stays an oracle',
+        'after a correspondence break search() first sweeps the field of the break (all hostile values, number ladder, numeric-looking '
+        'strings, in four layouts and in the breaking input) resp. the parameters of the breaking URI (alone, pairs, dropped, doubled, '
+        'values of their class), then a random budget',
         'time and memory of CPython are measured (CPU seconds, peak RSS, peak address space in a forked child), not proved; '
         'claimed bound: %g s/byte + %g s, RSS %d B/byte + %d MiB' % (TIME_C, TIME_D, RSS_C, RSS_D >> 20),
         'byte strings longer than MAX_TORRENT_FILE_SIZE are outside the property ("up to the read limit"): '
@@ -1406,7 +1443,17 @@ def run(ctx, drv):
     t0 = time.time()
     rc = build_read_cases(ctx)
     phase['build_read_cases'] = round(time.time() - t0, 1)
-    B = 6000
+    # self-test hook for search(): VERIF_C08_SKIP_KINDS=prefix,prefix… drops those kinds from the main run, so that a seeded
+    # change is only seen as a correspondence break and the sweep has to find the failing input
+    skip = tuple(k for k in os.environ.get('VERIF_C08_SKIP_KINDS', '').split(',') if k)
+    if skip:
+        rc = [c for c in rc if not c['kind'].startswith(skip)]
+        ctx.notes['skipped_kinds(self-test)'] = list(skip)
+    B = 15000
+    try:
+        phase['main_rss_mb'] = _status()['VmRSS'] >> 20
+    except Exception:   # noqa
+        pass
     t0 = time.time()
     random_order = list(range(len(rc)))
     ctx.rng.shuffle(random_order)
@@ -1416,6 +1463,8 @@ def run(ctx, drv):
     phase['evaluate_read'] = round(time.time() - t0, 1)
     t0 = time.time()
     mc = build_magnet_cases(ctx)
+    if skip:
+        mc = [c for c in mc if not c['kind'].startswith(skip)]
     for i in range(0, len(mc), 20000):
         evaluate_magnet(ctx, drv, mc[i:i + 20000])
     phase['magnet'] = round(time.time() - t0, 1)
@@ -1442,9 +1491,65 @@ def run(ctx, drv):
     phase['memory_probe'] = round(time.time() - t0, 1)
 
 
+def _break_paths(case):
+    """where in the metainfo a correspondence break sits: the field of a field-directed case, else every value of the input"""
+    if case.get('path'):
+        return [case['path']]
+    if 'x' not in case:
+        return []
+    try:
+        import flatbencode
+        top = flatbencode.decode(bytes.fromhex(case['x']))
+    except Exception:   # noqa
+        return []
+    return [ugen.path_label(p) for p in ugen._value_paths(top)][:40] if isinstance(top, dict) else []
+
+
 def search(ctx, drv):
-    """after a correspondence break: spend a larger budget directly against the specification"""
+    """after a correspondence break: (1) sweep the place where model and code disagree — for a torrent the field of the break
+    (every hostile value, the number ladder, the numeric-looking strings with their long forms, in the four layouts and in the
+    input of the break itself); for a magnet the parameters of the URI alone, in pairs, dropped, doubled, reordered and with every
+    value of their class — so that a difference that stays inside the documented sets on the generated input (digit string
+    accepted, hybrid link accepted) is followed to the input of the same class on which it leaves them (4301 digits, v2-only
+    link); (2) spend a larger random budget directly against the specification"""
     r = ctx.rng
+    breaks = list(ctx.corr_breaks)
+    paths, bases_by_path = [], {}
+    for b in breaks:
+        if not b['op'].startswith('c08.read'):
+            continue
+        for label in _break_paths(b['case']):
+            if label not in bases_by_path and len(paths) < 8:
+                paths.append(label)
+                bases_by_path[label] = []
+            if label in bases_by_path and len(bases_by_path[label]) < 2 and 'x' in b['case']:
+                try:
+                    import flatbencode
+                    top = flatbencode.decode(bytes.fromhex(b['case']['x']))
+                    if isinstance(top, dict):
+                        bases_by_path[label].append(top)
+                except Exception:   # noqa
+                    pass
+    std = [ugen.layout(k, f) for k in ('single', 'multi') for f in (True, False)]
+    for label in paths:
+        path = ugen.parse_path_label(label)
+        cs = ugen.field_sweep(path, std + bases_by_path[label])
+        cases = [dict(c, validate=V, how='bytes') for c in cs for V in (True, False)]
+        ctx.dist['search:field-sweep:' + label] += len(cases)
+        for i in range(0, len(cases), 6000):
+            evaluate_read(ctx, drv, cases[i:i + 6000])
+            if ctx.violations:
+                return
+    uris = []
+    for b in breaks:
+        if b['op'] == 'c08.magnet' and b['case'].get('uri') and not b['case']['uri'].endswith('…') and b['case']['uri'] not in uris:
+            uris.append(b['case']['uri'])
+    for uri in sorted(uris, key=len)[:6]:
+        mc = ugen.magnet_sweep(uri)
+        ctx.dist['search:magnet-sweep'] += len(mc)
+        evaluate_magnet(ctx, drv, mc)
+        if ctx.violations:
+            return
     n = ctx.n(30000, 300000)
     cases = _expand(r, ugen.seeded(r, n))
     for i in range(0, len(cases), 6000):
